@@ -24,8 +24,8 @@ def carriers_rule(rep, prog, oks):
     r2 = rep.rule("R2", "each carrier's decoded value is the bit permutation C1 A1 C2 A2 C4 A4 X B1 D1 B2 D2 B4 D4 -> hex digits A B C D (each 0-7); carriers agree")
     seen = {}
     for p in oks:
-        if not aligned(p):
-            continue
+        if "Capability::Reserved" in p.label:
+            continue        # known mis-seek (C04 R1d), recorded there
         for l in p.leaves:
             key = None
             if p.variant == "SurveillanceIdentityReply" and "adsb_deku::IdentityCode" in l.adts:
@@ -34,9 +34,13 @@ def carriers_rule(rep, prog, oks):
                 key, start = "DF21.id", 19
             elif l.path[-1] == "squawk" and ME_ADT in l.adts and p.ids[0] == 17:
                 key, start = "ME28.squawk", 43
-            if key and key not in seen:
-                seen[key] = (l, start)
-    for key, (l, start) in sorted(seen.items()):
+            if key:
+                # every grammar path of the carrier (the surrounding header fields select different paths), distinct results once
+                from ..ai.values import fp
+                sig = (key, l.atoms, fp(l.value))
+                if sig not in seen:
+                    seen[sig] = (key, l, start, p.label)
+    for _sig, (key, l, start, plabel) in sorted(seen.items(), key=lambda kv: (kv[1][0], kv[1][3])):
         rep.instance(r1, key, sample={"carrier": key, "slice": rng_str(l.atoms)})
         want = frozenset(range(start, start + 13))
         if l.atoms != want:
